@@ -71,7 +71,8 @@ AnnounceEnd(r) ==
   /\ err' = r.fail
   /\ locked' = FALSE /\ inAnn' = FALSE /\ pendingCall' = FALSE
   /\ learnt' = r.peers
-  /\ contacts' = [contacts EXCEPT ![Len(contacts)].ann = IF r.fail THEN 0 ELSE r.it]
+  \* what the tracker announced: the interval of its reply or, with a failure reason, 'retry in'
+  /\ contacts' = [contacts EXCEPT ![Len(contacts)].ann = IF r.fail THEN (IF r.retry > 0 THEN r.retry ELSE 0) ELSE r.it]
   /\ res' = IF r.fail THEN "error" ELSE "ok"
   /\ last' = [a |-> "AnnounceEnd", r |-> r.name]
   /\ UNCHANGED el
@@ -86,7 +87,8 @@ Spec == Init /\ [][Next]_vars
 \* after an announce attempt the tracker is never left stuck in the busy state
 NeverStuckBusy == ~inAnn => ~locked
 \* not contacted again before max(5 min, announced interval); the announced
-\* interval counts when it is a sane one (1 min .. 10 years)
+\* interval - in a reply, or as 'retry in' with a failure reason - counts when
+\* it is a sane one (1 min .. 10 years)
 Sane(i) == i > 60 /\ i < 315360000
 MinGap == \A k \in 2..Len(contacts) :
             /\ contacts[k].gap > 300
